@@ -894,5 +894,5 @@ static void one_case(vh::Ctx & c, uint64_t idx)
 int main(int argc, char ** argv)
 {
   (void)EPSF;
-  return vh::run(argc, argv, "C11", {200000, 30000000}, one_case);
+  return vh::run(argc, argv, "C11", {1000000, 30000000}, one_case);
 }
